@@ -4,21 +4,33 @@
 #define private public
 #include <nstd/HashMap.hpp>
 #include <nstd/HashSet.hpp>
+#include <nstd/PoolMap.hpp>
 #undef private
 #include "nvh.h"
 
 // the same harness serves HashSet<K> (-DNV_HASHSET): identical scheme without the value field
-#ifdef NV_HASHSET
+#if defined(NV_POOLMAP)
+// PoolMap<K,V>: same scheme; the value is constructed in place (value-initialised) by insert and an
+// existing entry is left untouched
+typedef PoolMap<unsigned long, long> HM; // key and value types must differ: PoolMap declares remove(const T&) and remove(const V&)
+typedef PoolMap<unsigned long, long>::Item Item;
+typedef PoolMap<unsigned long, long>::Iterator HIter;
+#define NV_VALUE_IS(i, v) true
+#define NV_NEW_VALUE_OK(i) true /* (goto-cc leaves value() of a built-in type unspecified; not claimed) */
+#define NV_DO_INSERT(m, pos, key, value) (m)->insert(pos, *(key))
+#elif defined(NV_HASHSET)
 typedef HashSet<long> HM;
 typedef HashSet<long>::Item Item;
 typedef HashSet<long>::Iterator HIter;
 #define NV_VALUE_IS(i, v) true
+#define NV_NEW_VALUE_OK(i) true
 #define NV_DO_INSERT(m, pos, key, value) (m)->insert(pos, *(key))
 #else
 typedef HashMap<long, long> HM;
 typedef HashMap<long, long>::Item Item;
 typedef HashMap<long, long>::Iterator HIter;
 #define NV_VALUE_IS(i, v) ((i)->value == (v))
+#define NV_NEW_VALUE_OK(i) true
 #define NV_DO_INSERT(m, pos, key, value) (m)->insert(pos, *(key), *(value))
 #endif
 
@@ -60,7 +72,7 @@ bool hm_insert_post(void* ret)
     return r == g_hit && NV_VALUE_IS(r, g_val) && r->key == g_key && m->_size == g_size0 && m->freeItem == (g_freeAvail ? g_F : (Item*)0) &&
            g_P->prev == g_Q && m->data[bucket(g_key)] == g_c1 && m->_begin.item == g_begin0;
   if(g_freeAvail && r != g_F) return false;
-  if(r->key != g_key || !NV_VALUE_IS(r, g_val)) return false;
+  if(r->key != g_key || !NV_VALUE_IS(r, g_val) || !NV_NEW_VALUE_OK(r)) return false;
   if(r->cell != &m->data[bucket(g_key)] || m->data[bucket(g_key)] != r || r->nextCell != g_c1) return false; // bucket chain
   if(g_c1 && g_c1->cell != &r->nextCell) return false;                                                        // back pointer fixed up
   if(r->prev != g_Q || r->next != g_P || g_P->prev != r) return false;                                       // order list
@@ -89,7 +101,13 @@ bool hm_find_post(void* ret)
 void h_layout()
 {
   HM* z = 0; Item* i = 0;
-#ifdef NV_HASHSET
+#if defined(NV_POOLMAP)
+  NV_CHECK((usize)&i->value == 0 && (usize)&i->key == 8 && (usize)&i->cell == 16 && (usize)&i->nextCell == 24 &&
+           (usize)&i->prev == 32 && (usize)&i->next == 40 && sizeof(Item) == 48, "layout PoolMap::Item == struct HItem_L");
+  NV_CHECK((usize)&z->_end == 0 && (usize)&z->_begin == 8 && (usize)&z->_size == 16 && (usize)&z->capacity == 24 &&
+           (usize)&z->data == 32 && (usize)&z->endItem == 40 && (usize)&z->freeItem == 88 && (usize)&z->blocks == 96,
+           "layout PoolMap == struct HMap_L");
+#elif defined(NV_HASHSET)
   NV_CHECK((usize)&i->key == 0 && (usize)&i->cell == 8 && (usize)&i->nextCell == 16 &&
            (usize)&i->prev == 24 && (usize)&i->next == 32 && sizeof(Item) == 40, "layout HashSet::Item == struct HItem_L");
   NV_CHECK((usize)&z->_end == 0 && (usize)&z->_begin == 8 && (usize)&z->_size == 16 && (usize)&z->capacity == 24 &&
@@ -200,7 +218,7 @@ void h_find()
   if(!g_present && chainLen == 2) { NV_REACH("find.miss_after_collisions"); }
 }
 
-#ifndef NV_HASHSET
+#if !defined(NV_HASHSET) && !defined(NV_POOLMAP)
 // ================================================================ bounded history check
 // up to 3 appends (symbolic keys, capacity NV_CAP) then one removal by key; compared with an
 // insertion-ordered reference map kept in arrays
